@@ -8,7 +8,9 @@ Open Scope N_scope.
 (* Event grammar per peer, for every configuration and every history of events in which Connection
    tasks close promptly (no Gate / gated TaskDie): NotificationStreamOpened and
    NotificationStreamClosed alternate strictly, starting with Opened, and no
-   NotificationStreamOpenFailure is reported between an Opened and its Closed
+   NotificationStreamOpenFailure is reported between an Opened and its Closed, and
+   NotificationReceived is delivered only between an Opened and its Closed — also when the
+   notification was still queued in the handle while the stream closed (NotifyDie)
    (`grammar` returns None on the first offending event). *)
 Theorem C11_alternation :
   forall (c : cfg) (ops : list op),
@@ -22,7 +24,7 @@ Print Assumptions C11_alternation.
 Theorem C11_alternation_refuted :
   exists (c : cfg) (ops : list op),
     grammar (fun _ => false) (events (fst (run c init ops))) = None.
-Proof. exists cfg_w, w_slow_close. vm_compute. reflexivity. Qed.
+Proof. exact C11_alternation_refuted_pf. Qed.
 Print Assumptions C11_alternation_refuted.
 
 (* A stream is reported opened only in a step that starts with the inbound substream accepted
@@ -54,17 +56,129 @@ Theorem C11_closed_on_user_close :
 Proof. exact closed_on_user_close_prompt. Qed.
 Print Assumptions C11_closed_on_user_close.
 
+(* ---- no stuck states ----
+   The run function stops at the first stuck step (a debug_assert!(false) / Poisoned survivor of the
+   Rust code); for every configuration and every history of events it never does. The environment
+   assumptions are the guards of Model.main_handler, stated explicitly as the predicate `enabled`
+   below: an event that is not enabled is not delivered. *)
+Theorem C11_no_stuck :
+  forall (c : cfg) (ops : list op), snd (run c init ops) = true.
+Proof. exact C11_no_stuck_pf. Qed.
+Print Assumptions C11_no_stuck.
+
+(* the same with the environment predicate on the event sequence spelled out *)
+Theorem C11_no_stuck_feasible :
+  forall (c : cfg) (ops : list op), feasible c init ops = true -> snd (run c init ops) = true.
+Proof. exact C11_no_stuck_feasible_pf. Qed.
+Print Assumptions C11_no_stuck_feasible.
+
+Theorem C11_guards_are_the_environment :
+  forall (c : cfg) (s : st) (o : op), enabled s o = false -> main_handler c s o = Some (s, [], []).
+Proof. exact disabled_noop. Qed.
+Print Assumptions C11_guards_are_the_environment.
+
+(* without the guards the handlers do get stuck: a second ConnectionEstablished for a connected peer *)
+Theorem C11_no_stuck_needs_environment_refuted :
+  exists (c : cfg) (ops : list op) (p : peer),
+    conn (last_state c ops) p = true /\ on_established c (last_state c ops) p = None.
+Proof. exact C11_no_stuck_needs_environment_refuted_pf. Qed.
+Print Assumptions C11_no_stuck_needs_environment_refuted.
+
+(* ---- isolation ----
+   A step for peer p leaves every other peer's state, handshake-service membership, handle gate
+   entries (peers, pending validation), connection state, newest task, and requests in flight
+   untouched, and reports events / makes service calls only about p. (For those requests B1 of the
+   invariant gives pending_outbound = Some q again in the new state.) *)
+Theorem C11_isolation :
+  forall (c : cfg) (s : st) (o : op) (s' : st) (ev : list uev) (cl : list call),
+    reachable c s -> step c s o = Some (s', ev, cl) -> iso s s' (op_peer o) ev cl.
+Proof. exact C11_isolation_pf. Qed.
+Print Assumptions C11_isolation.
+
+Theorem C11_runs_are_reachable :
+  forall (c : cfg) (ops : list op) (x : st * list uev * list call),
+    In x (fst (run c init ops)) -> reachable c (fst (fst x)).
+Proof. exact C11_runs_are_reachable_pf. Qed.
+Print Assumptions C11_runs_are_reachable.
+
+(* ---- inbound streams only after an accept ----
+   The accepted-inbound state (handshake being sent / sent) arises, for any peer and in any state,
+   only from the user's Accept of a substream under validation or from the auto-accept branch
+   (auto_accept configured and an outbound substream already initiated). *)
+Theorem C11_accepted_only_by_accept :
+  forall (c : cfg) (s : st) (o : op) (s' : st) (ev : list uev) (cl : list call) (q : peer),
+    step c s o = Some (s', ev, cl) -> acc_inb (ps s' q) = true -> acc_inb (ps s q) = false ->
+    is_accept c s o q = true.
+Proof. exact accept_step. Qed.
+Print Assumptions C11_accepted_only_by_accept.
+
+(* Every NotificationStreamOpened in every history is preceded by such an accepting step for the peer. *)
+Theorem C11_inbound_needs_accept :
+  forall (c : cfg) (pre : list op) (s : st) (o : op) (s' : st) (ev : list uev) (cl : list call)
+         (p : peer) (d : dir),
+    exec c init pre = Some s -> step c s o = Some (s', ev, cl) -> In (UOpened p d) ev ->
+    exists pre1 a pre2 s1,
+      pre = pre1 ++ a :: pre2 /\ exec c init pre1 = Some s1 /\ is_accept c s1 a p = true.
+Proof. exact inbound_needs_accept. Qed.
+Print Assumptions C11_inbound_needs_accept.
+
+(* ---- the open-request ledger ----
+   `ledger` runs a history and keeps, per peer, whether an open request the protocol took up is still
+   owed an answer (owed_next: cleared by Opened / OpenFailure for the peer, or by the user's own Reject of
+   the peer's inbound substream). Outside finding class 2 and as long as no ValidateSubstream replaces
+   an unanswered one (ledger_env), whoever is owed an answer has the outbound half in progress and the
+   environment still owes the protocol the event that will produce the answer (obligation): at
+   quiescence nothing is owed. *)
+Theorem C11_open_answered :
+  forall (c : cfg) (ops : list op) (s : st) (owed : peer -> bool),
+    ledger_env c init ops = true -> ledger c init (fun _ => false) ops = Some (s, owed) ->
+    forall p, owed p = true -> in_progress (ps s p) = true /\ obligation s p = true.
+Proof. exact open_answered. Qed.
+Print Assumptions C11_open_answered.
+
+Theorem C11_quiescent_nothing_owed :
+  forall (c : cfg) (ops : list op) (s : st) (owed : peer -> bool) (p : peer),
+    ledger_env c init ops = true -> ledger c init (fun _ => false) ops = Some (s, owed) ->
+    obligation s p = false -> owed p = false.
+Proof. exact C11_quiescent_nothing_owed_pf. Qed.
+Print Assumptions C11_quiescent_nothing_owed.
+
+(* never two answers: one step reports at most one Opened / OpenFailure per peer, and an answer
+   clears the ledger entry (owed_next), in every state *)
+Theorem C11_at_most_one_answer :
+  forall (c : cfg) (s : st) (o : op) (s' : st) (ev : list uev) (cl : list call) (q : peer),
+    step c s o = Some (s', ev, cl) -> (length (answers q ev) <= 1)%nat.
+Proof. exact C11_at_most_one_answer_pf. Qed.
+Print Assumptions C11_at_most_one_answer.
+
 (* Finding class 2: after the outbound substream of an accepted inbound stream fails to open, the
    failed id stays in pending_open; the next open request adopts it although the transport owes
-   nothing for it (spend = []), so the request is never answered. *)
+   nothing for it: the request is owed an answer that nothing will ever produce. *)
 Theorem C11_open_answered_refuted :
-  exists (c : cfg) (ops : list op),
-    ps (last_state c ops) 0 = Some (OutInit 0) /\ spend (last_state c ops) = [] /\
-    last ops (Timer 0) = CmdOpen 0.
-Proof. exists cfg_w0, w_failed_sid. vm_compute. repeat split. Qed.
+  exists (c : cfg) (ops : list op) (s : st) (owed : peer -> bool),
+    ledger c init (fun _ => false) ops = Some (s, owed) /\ owed 0 = true /\ obligation s 0 = false.
+Proof. exact C11_open_answered_refuted_pf. Qed.
 Print Assumptions C11_open_answered_refuted.
 
+(* The other hypothesis is needed as well: when a ValidateSubstream replaces an unanswered one, the
+   handle drops the old oneshot, the protocol reads that as a Reject and silently discards the user's
+   own open request (observation recorded with the findings). *)
+Theorem C11_open_answered_needs_validation_answers_refuted :
+  exists (c : cfg) (ops : list op) (s : st) (owed : peer -> bool),
+    ledger c init (fun _ => false) ops = Some (s, owed) /\ owed 0 = true /\ in_progress (ps s 0) = false.
+Proof. exact C11_open_answered_needs_validation_answers_refuted_pf. Qed.
+Print Assumptions C11_open_answered_needs_validation_answers_refuted.
+
 (* non-vacuity: a prompt history that opens a stream and closes it *)
+Example C11_notification_dropped_after_close :
+  events (fst (run cfg_w init (open_by_user ++ [Notify 0; NotifyDie 0 false]))) =
+  [UOpened 0 DOut; UNotif 0; UClosed 0].
+Proof. vm_compute. reflexivity. Qed.
+
+Example C11_ledger_env_nonvacuous :
+  ledger_env cfg_w init (open_by_user ++ [CmdClose 0]) = true /\ feasible cfg_w init open_by_user = true.
+Proof. vm_compute. split; reflexivity. Qed.
+
 Example C11_open_close_run :
   forallb prompt_op (open_by_user ++ [CmdClose 0]) = true /\
   events (fst (run cfg_w init (open_by_user ++ [CmdClose 0]))) = [UOpened 0 DOut; UClosed 0].
